@@ -236,8 +236,12 @@ def classify_parts(ctx, b, tb, bi, ones, eachs, site):
         def len_of_X(x):
             return (x[0] == 'call' and call_name(x) == 'len' and strip_sites(detry(x[2][0])) == X) or (x[0] == 'len' and strip_sites(detry(x[1])) == X)
         lens = find_terms(b, tb, len_of_X)
+        def len_env(n):
+            e = {l: n for l in lens}
+            e[('len', X)] = n
+            return e
         if not ones:
-            if not lens or any(bi in reach_under(b, tb, {l: n for l in lens}) for n in range(0, k + 1)):
+            if any(bi in reach_under(b, tb, len_env(n)) for n in range(0, k + 1)):
                 ctx.fail('C04.1', site, 'node built over the decoded tail [%d..] of %s without an element-count guard that makes it non-empty' % (k, fmt(X)), key='C04.1|tail|' + b.path)
                 return True
         ctx.ok('C04.1', site, 'decoded tail elements[%d..]: non-empty by the element-count guard (site unreachable for len <= %d)' % (k, k), nontrivial=False)
